@@ -3,7 +3,7 @@ from .common import fams, generic_replay, PATTERNS
 
 
 def run(tier):
-    f = fams({'ADM'}, only=['Noh'], extra=('EHEP','EPpiston','Mader','SDRZ','RiemannGen','RiemannJWL','RMTV'))
+    f = fams({'ADM'}, only=['Noh'], extra=('EHEP','EPpiston','Mader','SDRZ','RiemannGen','RiemannJWL','RMTV','Guderley'))
     f["SuOlson"] = ("suolson", {"SUOL", "FIN"})        # 0 <= v <= u <= 1, monotone in x and t
     return scans.scan_check("C17", ("ADM.", "SUOL.v", "SUOL.u<=1", "SUOL.mono"), {"ADM"}, f, tier, require_patterns=PATTERNS)
 
